@@ -80,7 +80,51 @@ def gen_case(rng, kind=None):
         )
     if not any(c["batch"].values()):
         c["S"] = 1
+    if rng.random() < 0.6:
+        add_updates(rng, c, rng.randint(1, 3))
     return c
+
+
+GEN = {}
+
+
+def _gens(rng):
+    def shape_v():
+        return rng.choice([1e-2, 1e2, 1.0, 0.5, 2.0]) if rng.random() < 0.1 else 10 ** rng.uniform(-2, 2)
+
+    def p_v():
+        return rng.choice([0.0, 0.5, 0.25, 0.999, 1e-9]) if rng.random() < 0.15 else rng.random()
+
+    def mu_v():
+        return rng.choice([1.0, 2.0, 0.5, 1e-3, 1e3]) if rng.random() < 0.15 else 10 ** rng.uniform(-3, 3)
+
+    return {"shape": shape_v, "inv": p_v, "mu": mu_v}
+
+
+def add_updates(rng, c, k, names=None):
+    """a history: k later assignments `param.tensor = new values` (same shapes), each touching one parameter
+    (mostly) or several; after every assignment rates()/probabilities() are read again"""
+    g = _gens(rng)
+    present = [n for n in ("shape", "inv", "mu") if c.get(n) is not None]
+    if not present:
+        return c
+    ups = []
+    for _ in range(k):
+        which = names or ([rng.choice(present)] if rng.random() < 0.7 else
+                          [n for n in present if rng.random() < 0.6] or [rng.choice(present)])
+        ups.append({"set": {n: [g[n]() for _ in range(len(c[n]))] for n in which},
+                    "order": rng.choice(["rp", "pr", "r", "p"])})
+    c["updates"] = ups
+    return c
+
+
+def state_at(c, k):
+    """the case as it stands after the first k updates (no history)"""
+    cc = {x: y for x, y in c.items() if x != "updates"}
+    for u in c.get("updates", [])[:k]:
+        for n, v in u["set"].items():
+            cc[n] = v
+    return cc
 
 
 def expected_unsupported(c):
@@ -98,20 +142,42 @@ def expected_unsupported(c):
 
 # ------------------------------------------------------------------ implementation side
 def run_impl(c):
-    """-> ('ok', rates(list of rows), probs(list of rows)) or ('raise', type, msg)"""
+    """build the REAL model once, read rates()/probabilities(), then apply the history of parameter
+    assignments, reading again after each. -> list (one entry per step, step 0 = as constructed) of
+    ('ok', rates rows, probs rows) or ('raise', type, msg)"""
     import torch
     from torchtree.core.parameter import Parameter
     from torchtree.evolution.site_model import ConstantSiteModel, InvariantSiteModel, WeibullSiteModel
+
+    pars = {}
+
+    def tens(name, v):
+        t = torch.tensor(v, dtype=torch.float64)
+        if c["batch"].get(name):
+            t = t.unsqueeze(-1)
+        return t
 
     def par(name):
         v = c.get(name)
         if v is None:
             return None
-        t = torch.tensor(v, dtype=torch.float64)
-        if c["batch"].get(name):
-            t = t.unsqueeze(-1)
-        return Parameter(name, t)
+        pars[name] = Parameter(name, tens(name, v))
+        return pars[name]
 
+    def read(m, order):
+        r = p = None
+        for ch in order:
+            if ch == "r":
+                r = m.rates()
+            else:
+                p = m.probabilities()
+        if r is None:
+            r = m.rates()
+        if p is None:
+            p = m.probabilities()
+        return ("ok", r.detach().reshape(-1, r.shape[-1]).tolist(), p.detach().reshape(-1, p.shape[-1]).tolist())
+
+    outs = []
     try:
         if c["kind"] == "const":
             m = ConstantSiteModel("sm", par("mu"))
@@ -119,13 +185,18 @@ def run_impl(c):
             m = InvariantSiteModel("sm", par("inv"), par("mu"))
         else:
             m = WeibullSiteModel("sm", par("shape"), c["K"], par("inv"), par("mu"))
-        r = m.rates()
-        p = m.probabilities()
-        r2 = r.detach().reshape(-1, r.shape[-1]).tolist()
-        p2 = p.detach().reshape(-1, p.shape[-1]).tolist()
-        return ("ok", r2, p2)
+        outs.append(read(m, "rp"))
     except Exception as e:  # the implementation raised: an outcome to be judged, not a harness crash
-        return ("raise", type(e).__name__, str(e)[:200])
+        return [("raise", type(e).__name__, str(e)[:200])]
+    for u in c.get("updates", []):
+        try:
+            for name, v in u["set"].items():
+                pars[name].tensor = tens(name, v)
+            outs.append(read(m, u.get("order", "rp")))
+        except Exception as e:
+            outs.append(("raise", type(e).__name__, str(e)[:200]))
+            break
+    return outs
 
 
 def slice_params(c, s):
@@ -195,9 +266,10 @@ def close(a, b, exact):
     return a == b or abs(a - b) <= TOL * max(abs(a), abs(b))
 
 
-def compare(ck, drv, c, rates, probs):
+def compare(ck, drv, c, rates, probs, step=0, whole=None):
     reqs = [model_request(c, s) for s in range(c["S"])]
     reps = drv.ask_many(reqs)
+    tag = {"step": step, "history": whole.get("updates")} if whole is not None and whole.get("updates") else {}
     for s, rep in enumerate(reps):
         if rep == "bad-op":
             ck.mismatch("driver refused request", {"case": c, "request": reqs[s]})
@@ -210,10 +282,10 @@ def compare(ck, drv, c, rates, probs):
             ck.mismatch("category count differs", {"case": c, "slice": s, "impl": len(r), "model": n})
             return False
         if not all(close(a, b, True) for a, b in zip(p, mp)):
-            ck.mismatch("probabilities differ", {"case": c, "slice": s, "impl": p, "model": mp})
+            ck.mismatch("probabilities differ", {**tag, "case": c, "slice": s, "impl": p, "model": mp})
             return False
         if not all(close(a, b, exact_rates) for a, b in zip(r, mr)):
-            ck.mismatch("rates differ", {"case": c, "slice": s, "impl": r, "model": mr})
+            ck.mismatch("rates differ", {**tag, "case": c, "slice": s, "impl": r, "model": mr})
             return False
     return True
 
@@ -232,15 +304,37 @@ def bucket_of(c):
         "+".join(k for k, v in sorted(c["batch"].items()) if v) or "none")
 
 
+def failing_steps(c, name):
+    outs = run_impl(c)
+    bad = []
+    for k, out in enumerate(outs):
+        if out[0] != "ok":
+            if name == "raises":
+                bad.append(k)
+        elif any(n == name for n, _ in oracle(state_at(c, k), out[1], out[2])):
+            bad.append(k)
+    return bad
+
+
 def shrink(c, name):
     """smallest variant of a failing case that still fails oracle `name`"""
     def fails(cc):
-        out = run_impl(cc)
-        if out[0] != "ok":
-            return name == "raises"
-        return any(n == name for n, _ in oracle(cc, out[1], out[2]))
+        return bool(failing_steps(cc, name))
 
     best = c
+    if c.get("updates"):
+        k = min(failing_steps(c, name) or [0])
+        best = dict(c, updates=c["updates"][:k])
+        if k == 0:
+            best = state_at(c, 0)
+        else:
+            # drop earlier assignments that are not needed
+            for i in range(k - 2, -1, -1):
+                cc = dict(best, updates=best["updates"][:i] + best["updates"][i + 1:])
+                if fails(cc):
+                    best = cc
+            return best
+    c = best
     # single slice
     for s in range(c["S"]):
         q = slice_params(c, s)
@@ -318,6 +412,7 @@ def run(ck: Check):
             for has_mu in (False, True):
                 for batched in (False, True):
                     c = gen_case(ck.rng, "weibull")
+                    c.pop("updates", None)
                     S = 3 if batched else 1
                     c.update(K=K, S=S, shape=[10 ** ck.rng.uniform(-2, 2) for _ in range(S)],
                              inv=[ck.rng.random() for _ in range(S)] if has_inv else None,
@@ -329,6 +424,31 @@ def run(ck: Check):
             for inv in (None, [0.0], [0.999]):
                 cases.append(({"kind": "weibull", "S": 1, "K": K, "shape": [shape], "inv": inv, "mu": None,
                                "batch": {"shape": False, "inv": False, "mu": False}}, "extreme"))
+    # live objects: every class x invariant x mu x (unbatched / batched): assign each parameter alone, then all
+    for kind in ("const", "inv", "weibull"):
+        for has_inv in ((False, True) if kind == "weibull" else (kind == "inv",)):
+            for has_mu in (False, True):
+                for batched in (False, True):
+                    for order in ("rp", "pr"):
+                        S = 3 if batched else 1
+                        g = _gens(ck.rng)
+                        c = {"kind": kind, "S": S}
+                        if kind == "weibull":
+                            c.update(K=ck.rng.randint(1, 8), shape=[g["shape"]() for _ in range(S)])
+                        if kind != "const":
+                            c["inv"] = [g["inv"]() for _ in range(S)] if has_inv else None
+                        c["mu"] = [g["mu"]() for _ in range(S)] if has_mu else None
+                        c["batch"] = {n: batched and c.get(n) is not None for n in ("shape", "inv", "mu") if n in c}
+                        present = [n for n in ("shape", "inv", "mu") if c.get(n) is not None]
+                        if not present:
+                            continue
+                        ups = []
+                        for n in present + [None]:
+                            which = [n] if n else present
+                            ups.append({"set": {w: [g[w]() for _ in range(S)] for w in which}, "order": order})
+                        ck.rng.shuffle(ups)
+                        c["updates"] = ups
+                        cases.append((c, "hgrid"))
     while len(cases) < n_cases:
         cases.append((gen_case(ck.rng), "random"))
 
@@ -337,21 +457,24 @@ def run(ck: Check):
 
     def explore(c, origin, with_model=True):
         nonlocal unexpected
-        out = run_impl(c)
+        outs = run_impl(c)
         unsupported = expected_unsupported(c)
-        ck.case(key=key_of(c), bucket=bucket_of(c) + ("/raises" if out[0] == "raise" else ""),
-                sample={"case": c, "impl": "raises " + out[1] if out[0] == "raise" else
-                        {"rates": out[1][0], "probs": out[2][0]}} if origin != "grid" else None)
-        if out[0] == "raise":
-            if not unsupported:
-                unexpected += 1
-                ck.mismatch("implementation raised on a supported parameter set", {"case": c, "error": out[1:]})
-                failures.append((c, "raises", {"error": out[1:]}))
-            return
-        for name, detail in oracle(c, out[1], out[2]):
-            failures.append((c, name, detail))
-        if with_model and drv is not None:
-            compare(ck, drv, c, out[1], out[2])
+        for k, out in enumerate(outs):
+            ck_ = state_at(c, k)
+            hist = "/update:" + "+".join(sorted(c["updates"][k - 1]["set"])) if k else ""
+            ck.case(key=key_of(ck_) + (k,), bucket=bucket_of(c) + hist + ("/raises" if out[0] == "raise" else ""),
+                    sample={"case": c, "step": k, "impl": "raises " + out[1] if out[0] == "raise" else
+                            {"rates": out[1][0], "probs": out[2][0]}} if origin not in ("grid", "hgrid") or k else None)
+            if out[0] == "raise":
+                if not unsupported:
+                    unexpected += 1
+                    ck.mismatch("implementation raised on a supported parameter set", {"case": c, "step": k, "error": out[1:]})
+                    failures.append((c, "raises", {"step": k, "error": out[1:]}))
+                return
+            for name, detail in oracle(ck_, out[1], out[2]):
+                failures.append((c, name, dict(detail, step=k)))
+            if with_model and drv is not None:
+                compare(ck, drv, ck_, out[1], out[2], step=k, whole=c)
 
     for c, origin in cases:
         explore(c, origin)
@@ -374,9 +497,13 @@ def run(ck: Check):
                 continue
             seen.add(sig)
             small = shrink(c, name)
-            out = run_impl(small)
-            det = oracle(small, out[1], out[2]) if out[0] == "ok" else [("raises", out[1:])]
-            ck.violation(sig, f"{CLASS[c['kind']]} violates {name}: {json.dumps(det[:1], default=str)[:300]}",
+            outs = run_impl(small)
+            k = len(outs) - 1
+            out = outs[k]
+            det = oracle(state_at(small, k), out[1], out[2]) if out[0] == "ok" else [("raises", out[1:])]
+            det = [d for d in det if d[0] == name] or det
+            after = f" after {len(small.get('updates', []))} parameter assignment(s) on a live object" if small.get("updates") else ""
+            ck.violation(sig, f"{CLASS[c['kind']]} violates {name}{after}: {json.dumps(det[:1], default=str)[:300]}",
                          {"case": small, "original_case": c, "detail": det[:3], "broken_obligations": broken,
                           "replay_cmd": "./check C05 --replay <this file>"})
     elif not ok or ck.mismatches:
@@ -396,16 +523,20 @@ def replay(path: str) -> int:
     if not c:
         print("replay names broken obligations only:", obj.get("broken_obligations"), obj.get("mismatches"))
         return 1
-    out = run_impl(c)
+    outs = run_impl(c)
     print("case:", json.dumps(c))
-    if out[0] == "raise":
-        print("implementation raises:", out[1:])
-        return 1
-    print("rates:", out[1])
-    print("probabilities:", out[2])
-    bad = oracle(c, out[1], out[2])
-    for name, detail in bad:
-        print("VIOLATES", name, detail)
-    if not bad:
-        print("all identities hold")
-    return 1 if bad else 0
+    rc = 0
+    for k, out in enumerate(outs):
+        print(f"-- step {k}" + (f": after assigning {c['updates'][k - 1]['set']}" if k else ": as constructed"))
+        if out[0] == "raise":
+            print("implementation raises:", out[1:])
+            return 1
+        print("rates:", out[1])
+        print("probabilities:", out[2])
+        bad = oracle(state_at(c, k), out[1], out[2])
+        for name, detail in bad:
+            print("VIOLATES", name, detail)
+            rc = 1
+        if not bad:
+            print("all identities hold")
+    return rc
